@@ -8,12 +8,14 @@ fn main() {
         "c02" => harness::d_verify::c02(&args),
         "c07" => harness::d_codec::c07(&args),
         "c01" => harness::d_sign::c01(&args),
+        "signsampler" => harness::d_sign::signsampler(&args),
         "c10" => harness::d_moments::c10(&args),
         "c13" => harness::d_fft::c13(&args),
         "c16" => harness::d_interop::c16(&args),
         "c17" => harness::d_babai::c17(&args),
         "c09" => harness::d_sampler::c09(&args),
         "c09-hist" => harness::d_sampler::c09_hist(&args),
+        "genpoly" => harness::d_sampler::c09_genpoly(&args),
         "keys" => harness::d_keys::keys(&args),
         "c11" => harness::d_field::c11(&args),
         "c12" => harness::d_field::c12(&args),
